@@ -321,6 +321,8 @@ def expr_place(du, pl, depth=0):
             e = ("discr", expr_place(du, rv["place"], depth + 1))
         elif k == "agg":
             e = ("agg", rv.get("agg"), tuple(expr(du, o, depth + 1) for o in rv["ops"]))
+            if rv.get("agg") == "adt":
+                e = e + (rv.get("adt"),)
             # projection into an aggregate: pick the component
             while path:
                 if isinstance(path[0], str) and path[0].startswith("as:") and e[0] == "agg" and rvk.get("agg") == "adt" and path[0][3:] == str(rvk.get("variant")):
@@ -412,3 +414,43 @@ def const_assignments(body, local=0):
                 if "int" in c:
                     out.append((bi, int(c["int"])))
     return out
+
+
+def inline_expr(facts, e, depth=0):
+    """replace calls to crate-local functions by their return expression (arguments substituted), where that expression is
+    a single tree (no join of several definitions) - lets key/comparator rules see through small helpers"""
+    if not isinstance(e, tuple) or depth > 3:
+        return e
+    if e and e[0] == "call" and isinstance(e[1], str) and e[1] in facts.bodies:
+        cb = facts.bodies[e[1]]
+        args = tuple(inline_expr(facts, a, depth + 1) for a in e[2])
+        cdu = DefUse(cb)
+        ret = expr_place(cdu, {"local": 0, "proj": []})
+        if not _has_multi(ret):
+            return inline_expr(facts, _subst_args(ret, args), depth + 1)
+        return ("call", e[1], args)
+    return tuple(inline_expr(facts, x, depth) if isinstance(x, tuple) else x for x in e)
+
+
+def _has_multi(e):
+    if isinstance(e, tuple):
+        if e and e[0] in ("multi", "deep"):
+            return True
+        return any(_has_multi(x) for x in e if isinstance(x, tuple))
+    return False
+
+
+def _subst_args(e, args):
+    if not isinstance(e, tuple):
+        return e
+    if e and e[0] == "arg" and isinstance(e[1], int) and 1 <= e[1] <= len(args):
+        a = args[e[1] - 1]
+        path = tuple(e[2])
+        if not path:
+            return a
+        if a[0] == "arg":
+            return ("arg", a[1], tuple(a[2]) + path)
+        if a[0] == "path":
+            return ("path", a[1], tuple(a[2]) + path)
+        return ("path", a, path)
+    return tuple(_subst_args(x, args) if isinstance(x, tuple) else x for x in e)
